@@ -236,7 +236,8 @@ class Run:
         return outdir
 
     # -- validate a sharded trace ---------------------------------------------
-    def validate(self, outdir, module="Trace", heap="2g", timeout=7200):
+    def validate(self, outdir, module="Trace", heap=None, timeout=7200):
+        heap = heap or ("3g" if self.tier == "thorough" else "2g")      # ndJsonDeserialize keeps the whole shard in memory
         shards = sorted(d for d in os.listdir(outdir) if d.startswith("shard"))
 
         def one(sh):
